@@ -42,11 +42,11 @@ theorem families_poly {R : Type} [CommRing R] {o : Ops R} (ho : RingLike o)
   Family.poly_sound ho (all_ok f hf) htm hk hks hj env
 
 theorem families_frac {K : Type} [Field K] [CharZero K] {o : Ops K} (ho : FieldLike o)
-    (f : Family) (hf : f ∈ families) (htm : f.treeMode = false) (hk : f.kind = .frac)
+    (f : Family) (hf : f ∈ families) (htm : f.treeMode = false) (hk : f.kind = .frac) (hdf : f.divFree = false)
     (ks : List Nat) (hks : ks ∈ f.keys) (j : Nat) (hj : j < f.nOut ks) (env : Nat → K)
     (hall : ∀ a ∈ f.allowed ks, a.divOK o env ∧ a.eval o env ≠ 0) :
     (f.post ks (lookup f.unit ks).outE j).eval o env = (f.spec ks j).eval o env :=
-  (Family.frac_sound ho (all_ok f hf) htm hk hks hj env hall).2
+  (Family.frac_sound ho (all_ok f hf) htm hk hdf hks hj env hall).2
 
 /-- sRGB curves (tree mode): the traced decision tree is the documented piecewise formula; component 3 of
 the vec4 overloads is the leaf `alpha` -/
